@@ -438,3 +438,140 @@ Section SplitInput.
       rewrite (no_units_outside _ _ H15) in Hl; cbn in Hl; lia.
   Qed.
 End SplitInput.
+
+(* ================================================================== assembly *)
+Definition certified_rows (lexs : list lexicon) (ds : SS.srcs) : Prop :=
+  Forall2 (fun L rows => exists fuel, cert_lex L (CC.index_rows_of rows) fuel = true) lexs ds.
+Definition rows_scalar (ds : SS.srcs) : Prop := Forall (Forall (fun r => Forall scalar (CR.r_surface r))) ds.
+
+Lemma certified_of_rows lexs ds : certified_rows lexs ds -> rows_scalar ds -> certified lexs.
+Proof.
+  intros Hc Hs L HL. apply In_nth_error in HL. destruct HL as (d & Hd).
+  destruct (forall2_nth _ _ _ Hc d L Hd) as (rows & Hrows & fuel & Hcert).
+  exists (CC.index_rows_of rows), fuel. split; [exact Hcert|].
+  intros r Hr. unfold CC.index_rows_of in Hr. apply in_map_iff in Hr. destruct Hr as (rr & <- & Hrr). cbn [fst].
+  rewrite utf8_bytes_enc. apply enc_chars_ok.
+  unfold rows_scalar in Hs. rewrite Forall_forall in Hs. specialize (Hs rows (nth_error_In _ _ Hrows)).
+  rewrite Forall_forall in Hs. exact (Hs rr Hrr).
+Qed.
+
+Definition e2e_conclusion (cfg : bcfg) (tk : tokenizer) (t0 t : list N) : Prop :=
+  exists ms, tokenize_model cfg tk t0 = Ok ms /\
+    (t = [] -> ms = []) /\
+    (t <> [] ->
+       partition_b (enc t0) (map (fun m => (mo_begin m, mo_end m)) ms) = true /\
+       concat (map mo_surface ms) = enc t0 /\
+       Forall (fun m => mo_surface m = byte_slice (enc t0) (mo_begin m, mo_end m) /\
+                        mo_begin_c m = codepoints_before (enc t0) (mo_begin m) /\
+                        mo_end_c m = codepoints_before (enc t0) (mo_end m)) ms /\
+       exists a, pre_split cfg tk t = Ok a /\
+         let p := map fst (pr_path a) in
+         let off := Offered (offered_at cfg tk t) OL.no_fallback in
+         chainP off 0 (length t) p /\ path_cost (tk_conn tk) p = snd (pr_eos a) /\
+         forall p', chainP off 0 (length t) p' -> (path_cost (tk_conn tk) p <= path_cost (tk_conn tk) p')%Z).
+
+(* the lattice of the run, in machine arithmetic and with the arrays of lattice.rs *)
+Definition machine_conclusion (cfg : bcfg) (tk : tokenizer) (t : list N) (nl nr : N) (data : list Z) : Prop :=
+  exists a ins,
+    pre_split cfg tk t = Ok a /\
+    pr_lattice a = insert_all (tk_conn tk) (reset (length t)) ins /\
+    (forall m, In m ins -> exists q, In m (offered_at cfg tk t q)) /\
+    connect_eos (tk_conn tk) (pr_lattice a) = Some (pr_eos a) /\
+    (forall checked, exists costs,
+       LM.minsert_all checked (tk_conn tk) (LM.mreset (length t)) ins = LM.Ok (LM.embL (pr_lattice a), costs) /\
+       LM.mconnect_eos checked (tk_conn tk) (LM.embL (pr_lattice a)) = LM.Ok (Some (pr_eos a))) /\
+    (forall dbg ovf L0, LPP.no_index_panic (LP.prounds dbg ovf nl nr data L0 [(length t, ins)])).
+
+Section Assembly.
+  Hypothesis F_slow : Generated.NormalizeFacts.slow_search_earliest = false.
+  Hypothesis F_guard : Generated.NormalizeFacts.lowercase_guard_is_uppercase = false.
+  Hypothesis F_path : Generated.NormalizeFacts.path_guard_is_uppercase = false.
+  Hypothesis Hfwd : O.OF.continuity_forward = true.
+  Hypothesis Hfix : O.OF.regex_ignores_empty_match = true.
+  Hypothesis Hrwf : SudachiVerif.Proofs.RewriteTermination.rewrite_facts_ok.
+  Hypothesis Hspf : Sp.split_facts_ok = true.
+  Hypothesis HLay : layout_ok = true.
+  Hypothesis HW : Generated.FieldOrder.writer_fields = SudachiVerif.Model.Codec.expected_writer.
+  Hypothesis HRd : SudachiVerif.Proofs.CodecProofs.reader_facts_ok.
+  Hypothesis HLn : SudachiVerif.Proofs.CodecProofs.len_thresholds_ok = true.
+  Variable cfg : bcfg.
+  Hypothesis Hcfg : cfg_ok cfg = true.
+  Hypothesis Hsc_ : c_start_cmp cfg = ">"%string.
+  Hypothesis Hrc : c_resolve_cmp cfg = ">"%string.
+  Hypothesis Hcc : c_commit_cmp cfg = ">"%string.
+  Hypothesis Hcl : (Z.of_N (c_commit_limit cfg) < 18446744073709551616)%Z.
+
+  Variable tk : tokenizer.
+  Variables (t0 : list N) (o_simple : O.oovdef) (t : list N).
+  Variables (ds : SS.srcs) (cs : list SS.compiled) (nsp : N) (po : N -> N).
+  Hypothesis Ht : t = NB.stack_spec (tk_plugins tk) t0.
+  Hypothesis H1 : (Z.of_nat (length (enc t0)) <= Z.of_N (c_start_limit cfg))%Z.
+  Hypothesis H2 : Forall NB.plugin_wf (tk_plugins tk).
+  Hypothesis H3 : NB.stack_nonempty (tk_plugins tk) t0.
+  Hypothesis H4 : NB.stack_fits cfg (tk_plugins tk) t0.
+  Hypothesis H5 : Forall scalar t.
+  Hypothesis H6 : certified_rows (tk_lexs tk) ds.
+  Hypothesis H6s : rows_scalar ds.
+  Hypothesis H7a : forall q, In q (tk_provs tk) -> SudachiVerif.Proofs.OovWf.provider_oracle_ok q (length t).
+  Hypothesis H7b : O.fallback_of (tk_provs tk) = Some (O.PSimple o_simple).
+  Hypothesis H7c : forall p, p < length t ->
+       exists st, O.normal_pass (O.mk_ctx (classes tk t)) (tk_provs tk) p (dict_onodes cfg tk t p) = O.ROk st.
+  Hypothesis Hcomp : SD.stack_compiled ds cs.
+  Hypothesis Hsrc : SD.srcs_ok ds.
+  Hypothesis Hnd : length ds <= 15.
+  Hypothesis Hhw : tk_hw tk = SS.ld_hw cs nsp po.
+  Hypothesis Hua : tk_ua tk = SS.ld_units cs nsp po true.
+  Hypothesis Hub : tk_ub tk = SS.ld_units cs nsp po false.
+  Hypothesis Hunits : units_declared_ok ds cs nsp po (tk_mode tk).
+
+  Let Hkeys := keys_of_certificates _ (certified_of_rows _ _ H6 H6s).
+
+  Lemma offered_at_wf : forall p m, In m (offered_at cfg tk t p) -> node_wf (length t) p m.
+  Proof.
+    intros p m H. apply (offered_wf Hfwd Hfix cfg Hcfg tk t H5 Hkeys H7a). rewrite OL.offered_no_fallback. exact H.
+  Qed.
+
+  Theorem tokenizer_end_to_end_from_rows : e2e_conclusion cfg tk t0 t.
+  Proof.
+    apply (tokenizer_end_to_end F_slow F_guard F_path Hfwd Hfix Hrwf Hspf cfg Hcfg Hsc_ Hrc Hcc Hcl
+             tk t0 o_simple (SS.src_key ds) t Ht H1 H2 H3 H4 H5 Hkeys H7a H7b H7c).
+    intros a Ha. rewrite Hhw, Hua, Hub.
+    apply (mode_wf_of_rows HW HRd HLn ds cs Hcomp Hsrc nsp po).
+    exact (rows_mode_wf_of_lookup cfg Hcfg HLay tk t H5 ds H6 Hnd Hsrc offered_at_wf cs Hcomp nsp po a (tk_mode tk) Ha Hunits).
+  Qed.
+
+  (* ---- the machine side of the same run ---- *)
+  Variables (nl nr : N) (data : list Z).
+  Hypothesis B1 : (N.of_nat (length t) <= 32766)%N.
+  Hypothesis B2 : forall l r, (- 32768 <= tk_conn tk l r <= 32768)%Z.
+  Hypothesis B3 : forall p m, In m (offered_at cfg tk t p) -> (- 32768 <= ncost m <= 32768)%Z /\ LP.ids_ok nl nr m = true.
+  Hypothesis B4 : LP.matrix_ok nl nr data = true.
+  Hypothesis B5 : forall e, (N.of_nat (LP.count_end e (flat_map (offered_at cfg tk t) (seq 0 (length t)))) <= 65535)%N.
+
+  Theorem tokenizer_end_to_end_machine : e2e_conclusion cfg tk t0 t /\ (t <> [] -> machine_conclusion cfg tk t nl nr data).
+  Proof.
+    pose proof tokenizer_end_to_end_from_rows as He. split; [exact He|]. intros Hne.
+    destruct He as (ms & _ & _ & He). destruct (He Hne) as (_ & _ & _ & a & Ha & _).
+    destruct (pre_split_inv cfg tk t offered_at_wf a Ha) as (ins & ws & _ & HL & Hok & Heos & _).
+    pose proof (ins_range cfg tk t offered_at_wf _ _ _ Hok) as Hrange.
+    destruct Hok as (_ & Hoff & _ & Hcnt).
+    exists a, ins. split; [exact Ha|]. split; [exact HL|]. split; [exact Hoff|]. split; [exact Heos|]. split.
+    - intros checked.
+      destruct (SudachiVerif.Proofs.LatticeMProofs.i32_exact_if_bounded checked (tk_conn tk) 32768 32768 B2 ltac:(lia) ltac:(lia)
+                  (length t) ins) as (costs & Hm1 & Hm2).
+      + intros m Hm. destruct (Hrange m Hm). destruct (Hoff m Hm) as (q & Hq). destruct (B3 q m Hq) as [Hc _]. lia.
+      + unfold LM.MAX32. lia.
+      + exists costs. rewrite <- HL in Hm1, Hm2. rewrite Heos in Hm2. split; assumption.
+    - intros dbg ovf L0. apply LPP.lattice_no_index_panic; [exact B4|]. cbn [forallb]. rewrite andb_true_r.
+      unfold LP.round_wf. cbn [fst snd].
+      assert (Hpos : 1 <= length t) by (destruct t; [contradiction | cbn; lia]).
+      apply andb_true_iff; split; [apply andb_true_iff; split; [apply andb_true_iff; split; [apply andb_true_iff; split|]|]|].
+      + apply Nat.leb_le. exact Hpos.
+      + apply N.leb_le. lia.
+      + apply forallb_forall. intros m Hm. destruct (Hrange m Hm). unfold LP.pnode_wf.
+        apply andb_true_iff. split; [apply Nat.ltb_lt | apply Nat.leb_le]; lia.
+      + apply forallb_forall. intros m Hm. destruct (Hoff m Hm) as (q & Hq). exact (proj2 (B3 q m Hq)).
+      + unfold LP.rows_small. apply forallb_forall. intros e _. apply N.leb_le. specialize (Hcnt e). specialize (B5 e).
+        unfold count_end in Hcnt. lia.
+  Qed.
+End Assembly.
